@@ -830,7 +830,8 @@ class Interp:
         if re.search(r"Result::<.*>::map_err::<", raw) or name.endswith("Result::map_err"):
             # Result::map_err maps the Err payload only: Ok-ness and the Ok payload are preserved (the closure is havocked)
             src = self.as_u(a0)
-            r = c.fresh(U, "map_err")
+            # a term OF the source (provenance obligations look for the source inside the result); one function per mapping closure
+            r = c.uf("fn:map_err:" + re.sub(r"[^\w@:.]", "_", raw)[-90:], [U], U)(src)
             st["pc_aux"].append(c.disc(r) == c.disc(src))
             for srt in (z3.BitVecSort(64), z3.BitVecSort(32), U, z3.BoolSort()):
                 st["pc_aux"].append(c.uf("proj_Ok_0", [U], srt)(r) == c.uf("proj_Ok_0", [U], srt)(src))
